@@ -177,6 +177,10 @@ struct World : IWorld {
       }
     }
   }
+  // known finding D11: a hazard_pointer guard copied (new slot, no validation) when the object is already retired
+  void note_hp_copy(TState& t, int b) {
+    if (tr.name[0] == 'h' && tr.name[1] == 'p' && t.held[b] >= 0 && obj_state(t.held[b]) == 2) tag("hp-copy-after-retire");
+  }
   // provenance of a copy of guard slot a
   int copy_via(TState& t, int a) {
     if (t.held[a] < 0) return 1;
@@ -296,6 +300,7 @@ struct World : IWorld {
           t.via[b] = nv;
           t.g(b) = t.g(a);
           after(t, b);
+          note_hp_copy(t, b);
           if (val_of(MPtr(t.g(b))) != want || val_of(MPtr(t.g(a))) != want)
             xsim::fail("algebra", "copy assignment: source/target do not both hold the source value");
           op_end(1, want);
@@ -346,6 +351,7 @@ struct World : IWorld {
             // a copy shares whatever slot the source may hold (also when the source pointer is null)
             t.mayhold[b] = want != 0 || t.mayhold[a];
             after(t, b);
+            note_hp_copy(t, b);
             if (val_of(MPtr(t.g(b))) != want) xsim::fail("algebra", "copy construction: target does not hold the source value");
           }
           op_end(1, want);
